@@ -21,7 +21,7 @@ CHUNK = 250
 SUB_T = [0.5, 0.25, 0.0625]        # seconds per time sub-tick (case field u = 1, 2, 3)
 SUB_F = 64.0                       # Hz per frequency sub-tick; MAX_FREQUENCY = 78125 sub-ticks (Buffer!FMAXS)
 
-RULE = ("every pair of calls of the TLA+ enumeration (62 geometries of all nine kinds incl. shapes on the edges time 0, "
+RULE = ("every pair of calls of the TLA+ enumeration (63 geometries of all nine kinds incl. shapes on the edges time 0, "
         "frequency 0 and MAX_FREQUENCY and events later than 5e6 s; time/frequency buffers 0, 1/2, 1, 2 ticks and beyond the domain "
         "(time buffers up to 1e8 s for the closed-form kinds: the time axis has no upper edge), paired with the next "
         "larger setting; negative-buffer combinations incl. tiny magnitudes -1e-9 .. -5e-324 and -0.0 on either axis; the buffer arguments passed as Python int/float and as numpy float64/float32/"
@@ -332,7 +332,7 @@ MANIFEST = {
              "domain, every vertex and lattice point of the original inside the result (exact rational even-odd ray casting on "
              "the output coordinates), bounds reaching the widened bounds clipped to the domain (limb numbers compared in TLA+; "
              "line strings against the inscribed-32-gon bound as well), supersets for comparable buffer pairs, negative buffers "
-             "rejected. TLC enumerates 62 geometries of all nine kinds (incl. shapes on the three domain edges) x 25 buffer "
+             "rejected. TLC enumerates 63 geometries of all nine kinds (incl. shapes on the three domain edges) x 25 buffer "
              "settings paired with the next larger one + negative combinations; a random driver adds larger lattices; every call "
              "is executed on the real code and judged by TLC."),
     "note": ("trusted: TLC, the binder checks/c11.py (encoder; min/max, ring closure and exact point location are generic "
